@@ -125,6 +125,7 @@ def _run(mod, cid, tier, seed, root, tmp, opts, t0):
 
     counters, monitors, exhaustive, notes = {}, {}, {}, {}
     distinct, samples, violations, reached = set(), [], [], set()
+    vcounts = {}
     evaluations = 0
     distinct_enum = 0
     problems = []
@@ -148,6 +149,8 @@ def _run(mod, cid, tier, seed, root, tmp, opts, t0):
             if len(samples) < 8:
                 samples.append(s)
         violations.extend(r.get('violations') or [])
+        for k, v in (r.get('violation_counts') or {}).items():
+            vcounts[k] = vcounts.get(k, 0) + v
         reached.update(r.get('reached') or [])
 
     known = load_known(cid)
@@ -176,7 +179,7 @@ def _run(mod, cid, tier, seed, root, tmp, opts, t0):
 
     for key, vs in sorted(seen_known.items()):
         print('KNOWN-FINDING: property=%s %s [%s; seen %d time(s) this run]'
-              % (cid, known_keys[key]['what'], key, len(vs)))
+              % (cid, known_keys[key]['what'], key, vcounts.get(key, len(vs))))
 
     rc = 0
     replay_dir = os.path.join(HERE, 'replays')
@@ -218,7 +221,7 @@ def _run(mod, cid, tier, seed, root, tmp, opts, t0):
             monitor_evaluations=monitors,
             anchors_reached=anchors_reached,
             repo_functions_executed=len(reached),
-            known_findings_seen={k: len(v) for k, v in seen_known.items()},
+            known_findings_seen={k: vcounts.get(k, len(v)) for k, v in seen_known.items()},
             shards=len(results),
             verdict={0: 'held on what was observed', 1: 'violated',
                      2: 'inconclusive'}[rc],
@@ -236,7 +239,7 @@ def _run(mod, cid, tier, seed, root, tmp, opts, t0):
     print('%s tier=%s seed=%d: %s; evaluations=%d distinct_nontrivial=%d '
           'violations=%d known=%d wall=%.1fs'
           % (cid, tier, seed, evidence['coverage']['verdict'], evaluations,
-             len(distinct) + distinct_enum, len(real), sum(len(v) for v in seen_known.values()),
+             len(distinct) + distinct_enum, len(real), sum(vcounts.get(k, len(v)) for k, v in seen_known.items()),
              wall))
     return rc
 
